@@ -203,9 +203,9 @@ func runCPCase(o *Oracle, d json.RawMessage, oc *Outcome) {
 	s.CuttingPlanes = true
 	// a third of the cases with a small limit on the learned constraints, so that their database is
 	// reduced (reduceLearnedPB / unwatchPB) during the run
-	smallDB := hashString(oc.Key)%3 == 0
+	smallDB := hashString(oc.Key)%3 == 0 && c.Fam == 0 // (the enumerated family keeps its recorded behaviour and running times)
 	if smallDB {
-		s.VerifSetNbMax([]int{4, 8, 16}[hashString(oc.Key)/3%3])
+		s.VerifSetNbMax([]int{8, 16, 32}[hashString(oc.Key)/3%3])
 		oc.Tag("small-learned-limit")
 	}
 	s.VerifSetLearnHook(func(pc solver.PBConstr) {
